@@ -197,9 +197,57 @@ def r2_temperature(ctx):
                         pass
     ctx.check(ok and bool(d_as), "C19.R2", ini, icfg.stmt[d_as[0]] if d_as else ini.node, "decrement proven > 0 by a raise that follows its assignment",
               "the plateau decrement is not guaranteed positive: the temperature could increase", construct="decrement > 0")
+    # "exactly 1 once the annealing iterations are over": the decrements that happen within the annealing iterations (one per plateau
+    # boundary i <= n_iter, i % period == 0 - both gates are checked above) add up to at least initial_temperature - 1
+    p_as = [st for st in statements(ini.node) if isinstance(st, ast.Assign) and U(st.targets[0]) == "self._annealing_period" and U(st.value) != "None"]
+    if len(d_as) == 1 and len(p_as) == 1:
+        from fractions import Fraction
+        A = "self.algo_parameters['annealing']"
+        worst, undec = None, None
+
+        def hook(c):
+            fn = U(c.func)
+            if fn in ("max", "min") and not c.keywords:
+                return (max if fn == "max" else min)([eval_guard(a, env, hook) for a in c.args])
+            if fn in ("int", "float", "abs", "round") and len(c.args) == 1:
+                return {"int": int, "float": float, "abs": abs, "round": round}[fn](eval_guard(c.args[0], env, hook))
+            return NotImplemented
+        for N in range(1, 31):
+            for P in range(2, 12):
+                for T0 in (Fraction(3, 2), Fraction(2), Fraction(10)):
+                    env = {f"{A}['n_iter']": N, f"{A}['n_plateau']": P, f"{A}['initial_temperature']": T0}
+                    try:
+                        per = eval_guard(p_as[0].value, env, hook)
+                        if per < 1 or per * (P - 1) > N:
+                            continue  # refused, or reported by C19.R1
+                        dec = eval_guard(icfg.stmt[d_as[0]].value, env, hook)
+                    except (GuardUnsupported, ZeroDivisionError, TypeError) as e:
+                        undec = undec or f"{type(e).__name__}: {e}"
+                        continue
+                    if dec > 0 and (N // per) * dec < float(T0 - 1) - 1e-9 and worst is None:
+                        worst = (N, P, T0, per, dec)
+        if worst:
+            N, P, T0, per, dec = worst
+            ctx.violation("C19.R2", ini, icfg.stmt[d_as[0]], f"with annealing.n_iter={N}, n_plateau={P}, initial_temperature={float(T0)} the {N // per} decrements of {float(dec):.4g} that happen during the "
+                          f"annealing iterations remove {float((N // per) * dec):.4g} < {float(T0 - 1):.4g}: the temperature is still above 1 once the annealing iterations are over",
+                          construct="decrements add up to T0 - 1")
+        elif undec:
+            ctx.unknown("C19.R2", ini, icfg.stmt[d_as[0]], f"cannot evaluate the plateau decrement / length ({undec})", construct="decrements add up to T0 - 1")
+        else:
+            ctx.ok("C19.R2", ini, icfg.stmt[d_as[0]], "the decrements within the annealing iterations add up to at least initial_temperature - 1 (grid of n_iter x n_plateau x T0)",
+                   construct="decrements add up to T0 - 1")
     t0 = [st for st in statements(ini.node) if isinstance(st, ast.Assign) and U(st.targets[0]) == "self.temperature"]
     ok = len(t0) == 1 and U(t0[0].value).replace('"', "'") == "self.algo_parameters['annealing']['initial_temperature']"
     ctx.check(ok, "C19.R2", ini, t0[0] if t0 else ini.node, "starts at the configured initial temperature", "the schedule does not start at annealing.initial_temperature", construct="initial temperature")
+    # the inverse used by the samplers is in sync from the first iteration on
+    i_inv = [n for n, st in icfg.stmt.items() if isinstance(st, (ast.Assign, ast.AugAssign)) and any(U(t) == "self.temperature_inv" for t in store_targets(st))]
+    for s0 in t0:
+        n0 = icfg.node_of(s0)
+        ctx.check(bool(i_inv) and icfg.all_paths_pass(n0, i_inv), "C19.R2", ini, s0, "temperature_inv set after the initial temperature on every path",
+                  "the initial temperature is set without its inverse: the samplers temper with temperature_inv = 1 during the first plateau", construct="initial inverse")
+    for iw in i_inv:
+        ctx.check(U(icfg.stmt[iw].value) in ("1.0 / self.temperature", "1 / self.temperature"), "C19.R2", ini, icfg.stmt[iw], "temperature_inv = 1/temperature",
+                  f"temperature_inv = `{U(icfg.stmt[iw].value)}` at initialisation", construct="initial inverse value")
     off = [r for r in icfg.nodes(lambda s: isinstance(s, ast.Return)) if any("not self.annealing_on" in U(icfg.stmt[h].test) and lab for h, lab in icfg.if_guards(r))]
     ctx.check(bool(off) and all(icfg.dominates(icfg.if_guards(off[0])[0][0], icfg.node_of(s)) for s in t0), "C19.R2", ini, ini.node, "nothing initialised without annealing",
               "annealing-off configurations still change the temperature", construct="annealing-off early return (initialise)")
